@@ -32,6 +32,9 @@ for n in (7, 8, 10):
     hs.append(H("c01::c06_proofs::c06_loose_header_%d" % n, crate="h-object", tier="quick" if n <= 8 else "thorough", timeout=900, mem=10, covers=2, extra_args=STUB, thorough_timeout=2400,
                 desc="decode::loose_header on arbitrary bytes: value or error, never panics; accepted headers have the shape '<kind> SP .. NUL'",
                 inputs="%d arbitrary bytes" % n, bound="unwind 14"))
+for n, tier in [(24, "thorough"), (28, "thorough")]:
+    hs.append(H("c01::tree_roundtrip::c06_tree_decode_%d" % n, crate="h-object", tier=tier, timeout=2400, mem=12, covers=1 if n < 27 else 2, extra_args=STUB,
+                desc="TreeRefIter over arbitrary bytes: entries or an error, never a panic", inputs="%d arbitrary bytes" % n, bound="unwind %d" % (n + 2)))
 hs += borrowed("C15", ["c15_validate_3", "c15_validate_5", "c15_sanitize_1", "c15_sanitize_2", "c15_sanitize_3", "c15_sanitize_lock_0_1"], "h-core")
 hs += borrowed("C29", ["c29_prefix_all", "c29_streaming_short", "c29_streaming_6", "c29_streaming_8"], "h-core")
 hs += borrowed("C57", ["c57_nopanic_2", "c57_nopanic_3", "c57_nopanic_4"], "h-core")
@@ -41,7 +44,7 @@ SPEC = {
     "id": "C06",
     "crate": "h-core",
     "harnesses": hs,
-    "functions": ["gix_bitmap::ewah::{decode, Vec::for_each_set_bit}", "gix_object::decode::loose_header", "gix_validate::{tag::name, reference::{name,name_partial,name_partial_or_sanitize}}",
+    "functions": ["gix_bitmap::ewah::{decode, Vec::for_each_set_bit}", "gix_object::decode::loose_header", "gix_object::TreeRefIter (tree entry decoder; thorough tier)", "gix_validate::{tag::name, reference::{name,name_partial,name_partial_or_sanitize}}",
                   "gix_packetline::decode::{hex_prefix,streaming}", "gix_quote::ansi_c::undo", "gix_pack::data::delta::decode_header_size"],
     "bounds": "per entry point: arbitrary byte strings of the stated small lengths (every byte value); EWAH bitmaps of <= 1 (2 thorough) words",
     "outside": ["every other entry point the property names: git objects (commit/tree/tag decoding), packed-refs, loose refs, reflog lines, config files, index files, attributes/ignore files, mailmap, commit-graph, multi-pack-index, ref advertisements, fetch responses, URLs, refspecs, revision specs, pathspecs, dates, credential messages - their parsers are winnow grammars, operate on memory-mapped files, or go through url/jiff; the smallest symbolic inputs were measured to exceed 600-900 s or 6-20 GB (DESIGN.md section 4)",
